@@ -175,6 +175,29 @@ func (w *World) findFuncTypeContract(ft types.Type) *Contract {
 			return c
 		}
 	}
+	// unnamed signature (aliases are transparent): match a declared functype
+	// whose type is identical
+	for _, rel := range w.pkgOrder {
+		cf := w.contracts[rel]
+		if cf == nil {
+			continue
+		}
+		tp := w.typesPkg(cf.Pkg)
+		if tp == nil {
+			continue
+		}
+		for _, key := range sortedKeys(cf.Funcs) {
+			if !strings.HasPrefix(key, "functype ") {
+				continue
+			}
+			o := tp.Scope().Lookup(strings.TrimPrefix(key, "functype "))
+			if tn, ok := o.(*types.TypeName); ok {
+				if types.Identical(types.Unalias(tn.Type()).Underlying(), types.Unalias(ft).Underlying()) {
+					return cf.Funcs[key]
+				}
+			}
+		}
+	}
 	return nil
 }
 
